@@ -194,7 +194,7 @@ def parse_file(path, fname):
 # self type of an impl block -> scan type
 SELF_TY = {"ProgressBar": "ProgressBar", "BarState": "BarState", "MultiProgress": "MultiProgress",
            "MultiState": "MultiState", "ProgressDrawTarget": "BarTarget", "Drawable": "Drawable",
-           "Ticker": "Ticker", "TickerControl": "TickerControl", "WeakProgressBar": "Untracked"}
+           "Ticker": "Ticker", "TickerControl": "TickerControl", "WeakProgressBar": "WeakProgressBar"}
 # impl blocks whose methods get a footprint; everything else in the four files must be lock free
 TRACKED_IMPLS = set(SELF_TY)
 
@@ -206,6 +206,7 @@ FIELDS = {
     ("Ticker", "stopping"): "StopPair", ("TickerControl", "stopping"): "StopPair",
     ("StopPair", "0"): "StopMutex", ("StopPair", "1"): "StopCondvar",
     ("TickerControl", "state"): "WeakBar", ("Ticker", "join_handle"): "JoinOpt",
+    ("WeakProgressBar", "state"): "WeakBar",
 }
 GUARD_RES = {"BarState": "CBar", "SlotGuard": "CSlot", "MultiState": "CMulti", "StopGuard": "CStop",
              "Drawable": "CMulti"}
@@ -408,7 +409,7 @@ class Scanner:
                 self.release(g)
             self.pop_scope(off)
             if st["has_q"]:
-                if any(e[0] != "M" for e in self.ev[st["ev_start"]:]):
+                if any(e[0] not in ("M", "upgrade") for e in self.ev[st["ev_start"]:]):
                     die("%s: `?` in a statement with lock events is not supported" % self.where(off))
                 self.mark("br_open")
                 self.mark("alt_open")
@@ -614,6 +615,19 @@ class Scanner:
                             and braces and st["kind"] != "let"):
                 if st and st["depth"] == len(braces) and not parens_open_in_stmt(parens, st):
                     if t == ";" and st["kind"] == "let":
+                        if st["has_q"]:
+                            # `let v = e?;`: the early return happens before v exists
+                            if any(e[0] not in ("M", "upgrade") for e in self.ev[st["ev_start"]:]) or st["temps"]:
+                                die("%s: `?` in a statement with lock events is not supported" % self.where(off))
+                            self.mark("br_open")
+                            self.mark("alt_open")
+                            self.mark("exit", "return", self.cleanup_events(0, off))
+                            self.mark("alt_close")
+                            self.mark("alt_open")
+                            self.mark("alt_close")
+                            self.mark("br_close")
+                            st["has_q"] = False
+                            st["was_q"] = True
                         self.bind_let(st, last_chain if last_chain_end == i - 1 else None, off)
                     elif t == ";" and last_chain_end == i - 1 and last_chain and last_chain[1] is not None \
                             and last_chain[1] in st["temps"] \
@@ -699,6 +713,12 @@ class Scanner:
                     chain = None
                     i += 2
                     continue
+                v0 = self.lookup(t)
+                if v0 is not None and v0.live and v0.typ == "ArcBar" and prev in ("{", ",") and nxt in (",", "}"):
+                    v0.live = False                 # moved into a struct literal (`ProgressBar { state, .. }`)
+                    chain = None
+                    i += 1
+                    continue
                 if t == "self":
                     chain = (self.selfty, None, None)
                 elif t == "tracker":
@@ -736,6 +756,9 @@ class Scanner:
             st["temps"].remove(g)
             g.typ = ty
             block[name] = g
+        elif ty == "OptArcBar" and st.get("was_q"):
+            block[name] = Var("ArcBar")            # `let state = self.state.upgrade()?;`
+            self.owned.append(block[name])
         elif ty not in ("Untracked",) and g is None:
             block[name] = Var(ty)
 
@@ -849,8 +872,11 @@ class Scanner:
                 gs = [x for x in st["temps"] if x.live and x.res == "CStop"]
                 if len(gs) != 1 or self.held[-1] is not gs[0]:
                     die("%s: wait_timeout_while without exactly the Stop guard as innermost guard" % w)
+                # wait_timeout_while = loop { predicate; deadline; wait }: zero or more waits
+                self.mark("loop_open")
                 self.ev.append(("waitrel", "CStop", w))
                 self.ev.append(("acq", "CStop", w + " (re-acquired by the wait)"))
+                self.mark("loop_close")
                 return ("StopGuard", gs[0], None)
             die("%s: condvar method %s not modelled" % (w, name))
         if ty in LEAF:
@@ -1223,7 +1249,7 @@ def main(argv):
                 fntab[(fn.typ, fn.name)] = fn
     for need in [("ProgressBar", "state"), ("ProgressDrawTarget", "drawable"), ("Ticker", "drop:drop"),
                  ("BarState", "drop:drop"), ("TickerControl", "run"), ("Ticker", "stop"), ("Ticker", "new"),
-                 ("BarState", "tick")]:
+                 ("BarState", "tick"), ("ProgressBar", "tick_inner")]:
         if need not in fntab:
             die("expected function %s::%s not found" % need)
     validate_guard_fns(fntab)
@@ -1308,7 +1334,7 @@ def main(argv):
     for (t, n), fn in sorted(fntab.items()):
         if (t, n) in RET_GUARD_IMPL:
             continue
-        if t in ("ProgressBar", "MultiProgress") and fn.public:
+        if t in ("ProgressBar", "MultiProgress", "WeakProgressBar", "ProgressDrawTarget") and fn.public:
             table.append(("%s::%s" % (t, n), flat[(t, n)], "%s:%d" % (fn.file, fn.line)))
             programs["%s::%s" % (t, n)] = prog[(t, n)]
     table.append(("ProgressBar::drop", drop_ev, "progress_bar.rs: struct ProgressBar (drop glue, last handle)"))
@@ -1322,6 +1348,7 @@ def main(argv):
                   ("TickerControl", "run")]:
         table.append(("%s::%s" % extra, flat[extra], "%s:%d" % (fntab[extra].file, fntab[extra].line)))
         programs["%s::%s" % extra] = prog[extra]
+    unbalanced = {}
     for name, evs, _ in table:
         try:
             check_balanced(name, evs)
@@ -1330,6 +1357,7 @@ def main(argv):
             # is not balanced; the structured program is what counts (prog_ordered); C08_footprints_ordered
             # will reject the flat entry
             sys.stderr.write("locks_extract.py: warning: %s\n" % e)
+            unbalanced[name] = str(e)
     lines = ["(* GENERATED by tools/locks_extract.py from %s/src - do not edit. *)" % "/repo",
              "From IndModel Require Import Base Locks.",
              "From Coq Require Import String.",
@@ -1340,6 +1368,9 @@ def main(argv):
              "Definition all_footprints : list (string * list caction) := ["]
     for k, (name, evs, src) in enumerate(table):
         lines.append("  (* %s *)" % src)
+        if name in unbalanced:
+            lines.append("  (* NOTE: this linearisation is NOT balanced (its alternatives release different guards); "
+                         "best effort only, the structured program below is what the theorems are about *)")
         lines.append('  ("%s", %s)%s' % (name, coq_list(evs), ";" if k + 1 < len(table) else ""))
     lines.append("].")
     lines.append("")
@@ -1353,6 +1384,14 @@ def main(argv):
     for k, (name, evs, src) in enumerate(table):
         lines.append('  ("%s", %s)%s' % (name, coq_prog(programs[name]), ";" if k + 1 < len(table) else ""))
     lines.append("].")
+    lines.append("")
+    lines.append("(** source text (comments stripped, white space normalised) of the two bodies that the one-line model")
+    lines.append("    Locks.tick_inner transcribes: ProgressBar::tick_inner and BarState::tick *)")
+    for nm, key in (("src_tick_inner", ("ProgressBar", "tick_inner")), ("src_barstate_tick", ("BarState", "tick"))):
+        txt = re.sub(r"\s+", " ", fntab[key].body).strip()
+        if '"' in txt:
+            die("%s::%s: body contains a string literal, cannot be pinned" % key)
+        lines.append('Definition %s : string := "%s".' % (nm, txt))
     lines.append("")
     lines.append("(** the program of a ticker thread (TickerControl::run): a loop *)")
     lines.append("Definition ticker_prog : cprog := %s." % coq_prog(programs["TickerControl::run"]))
